@@ -198,23 +198,24 @@ def run(A, cfg, script, seed=0, hs_adv=False, fair=True):
     return s
 
 
-def random_script(rnd, n_steps, profile):
+def random_script(rnd, n_steps, profile, streams=None, sizes=None):
     """profile: dict of weights; keys = step kinds."""
     kinds = [k for k, w in profile.items() if w > 0]
     weights = [profile[k] for k in kinds]
     out = []
+    STR = streams or STREAMS
     for _ in range(n_steps):
         k = rnd.choices(kinds, weights)[0]
         if k == "write":
-            sid = rnd.choice(STREAMS)
+            sid = rnd.choice(STR)
             ep = initiator(sid) if is_uni(sid) or rnd.random() < 0.7 else other(initiator(sid))
-            n = rnd.choice([0, 1, 2, 5, 30, 200, 1100, 1300, 3000])
+            n = rnd.choice(sizes or [0, 1, 2, 5, 30, 200, 1100, 1300, 3000])
             fin = rnd.random() < 0.3
             if n == 0 and not fin:
                 n = 1
             out.append(["write", ep, sid, n, fin])
         elif k in ("reset", "stop"):
-            sid = rnd.choice(STREAMS)
+            sid = rnd.choice(STR)
             out.append([k, rnd.choice("cs"), sid])
         elif k in ("ping", "keyupdate", "changecid"):
             out.append([k, rnd.choice("cs")])
@@ -241,7 +242,10 @@ def random_script(rnd, n_steps, profile):
     return out
 
 
+MANY_STREAMS = [0, 4, 8, 12, 2, 6, 10, 1, 5, 9, 3, 7, 11]
 PROFILES = {
+    "tailloss": {"write": 6, "deliver": 4, "drop": 4, "timer": 5, "tick": 0.5},
+    "flow": {"write": 7, "deliver": 8, "drop": 1.5, "dup": 0.5, "timer": 3, "tick": 1, "reset": 0.4, "stop": 0.2},
     "closing": {"write": 4, "deliver": 6, "drop": 1, "dup": 0.5, "timer": 2, "late": 0.7, "tick": 1, "ping": 0.5,
                 "close": 0.8, "reset": 0.3, "keyupdate": 0.3, "rebind": 0.2, "corrupt": 0.5},
     "amplify": {"write": 5, "deliver": 6, "drop": 2, "dup": 1, "timer": 3, "spoof": 2, "rebind": 1.5, "corrupt": 0.5, "changecid": 0.5},
